@@ -112,3 +112,26 @@ Proof.
   cbn [in_range] in Hr. rewrite in_z_true by (apply r_s32; exact Hr).
   rewrite of_sgn64_sgn64; [reflexivity|]. apply (in_range_lt64 SEnum). exact Hr.
 Qed.
+
+(* a hex id is accepted exactly when it is empty or has the length of the id (anything else — short,
+   OVER-LONG — is an error, never a write outside the id) *)
+Lemma json_id_length_l E rec e m d n cur b :
+  fty d = TId n -> jstr e = true ->
+  (oj_one E rec e m d cur (JHex b) <> None <-> (blen b = 0 \/ blen b = n)).
+Proof.
+  intros Hty Hs. unfold oj_one. rewrite Hty, Hs.
+  destruct (N.eqb_spec (blen b) 0) as [E0|E0]; [split; [auto|discriminate]|].
+  destruct (N.eqb_spec (blen b) n) as [En|En]; split; try discriminate; auto.
+  - intros H. contradiction.
+  - intros [H|H]; contradiction.
+Qed.
+
+(* an integer token outside the range of the field is an error for every reader, in both forms *)
+Lemma json_int_range_l e names k z :
+  match k with SBool | SDouble => False | _ => True end ->
+  int_to_field k z = None ->
+  oj_scalar e names k (JInt z) = None /\ oj_scalar e names k (JIntStr z) = None.
+Proof.
+  intros Hk H. destruct k; try contradiction; cbn [oj_scalar]; rewrite H;
+    (split; [destruct (jnum e); reflexivity|destruct (jstr e); reflexivity]).
+Qed.
